@@ -18,7 +18,7 @@ TEXT = {
     "C02": dict(ref="DESIGN.md 4 C02", technique="TLC model checking + TLC-generated scenarios replayed on the router + TLC trace validation",
                 level=TL + "For C02 the compared projection is RESULT and ERROR(CALL/CANCEL) at every session; leg 1 checks the reply monitor "
                 "(progress* final, no stray reply), Owed and NoOrphan for every interleaving of call/cancel/yield/error/timer/leave.",
-                note=NOTE + "Callers keep reading (stalled callers are C07). Payload passthru and progressive call invocations are not generated yet."),
+                note=NOTE + "Callers keep reading (stalled callers are C07). Progressive call invocations are generated (bag pci); payload passthru is not."),
     "C03": dict(ref="DESIGN.md 4 C03", technique="TLC model checking + TLC-generated scenarios replayed on the router + TLC trace validation",
                 level=TL + "For C03 the projection is REGISTERED/UNREGISTERED/INVOCATION/ERROR(REGISTER, UNREGISTER) and the replies; the "
                 "registration chosen, the callee and the invocation id are bound to the logged values and must be a best match, an eligible "
